@@ -424,6 +424,26 @@ example : ((List.range 5).map fun x => getAttr schChain atChain stChain (driverF
       [some 1, some 1, some 1, some 1, some 1] ∧
     ((List.range 5).map fun x => getAttr schChain atChain stChain (2 * schChain.length + 4) x "Next_Id") =
       [none, none, some 1, some 1, some 1] := by decide
+/-- `KindsOk` — partners across an association are of its target kind — holds in EVERY reachable state (any history, any
+    arguments): it follows from symmetric navigation and well-typed links, two of the invariants of
+    `all_invariants_reachable` -/
+theorem kindsOk_reachable (sch : Schema) (hok : SchemaOk sch) (ops : List Op) : KindsOk sch (run sch ops) := by
+  have hall := all_invariants_reachable sch hok ops
+  intro i a x o ha ho
+  have hmem : o ∈ ((run sch ops).links i).tgt x := List.mem_of_mem_head? ho
+  have hsym : x ∈ ((run sch ops).links i).src o := ((hall.inv i).1 o x).2 hmem
+  obtain ⟨a', ha', hko, _⟩ := hall.typed i o x hsym
+  rw [ha] at ha'
+  cases ha'
+  exact hko
+
+/-- hence for a schema whose referential keys do not refer to one another in a cycle (`AttrRank`, a property of the SCHEMA)
+    the acyclicity hypothesis `ReadRank` of the referential-read clause holds in every reachable state — rings and
+    self-links of instances included -/
+theorem read_rank_reachable (sch : Schema) (hok : SchemaOk sch) (ar : Kind → String → Nat) (har : AttrRank sch ar)
+    (ops : List Op) : ReadRank sch (run sch ops) (fun x name => ar ((run sch ops).kindOf x) name) :=
+  readRank_of_attrRank sch (run sch ops) ar har (kindsOk_reachable sch hok ops)
+
 /-- the clause and the driver's fuel APPLIED to the chain: N0 reads, through five hops, the id of Z5 -/
 example : getAttr schChain atChain stChain (driverFuel schChain stChain) 0 "Next_Id" =
     readValue schChain atChain stChain (fun x _ => 5 - x) 0 "Next_Id" :=
@@ -481,6 +501,26 @@ example : getAttr schRefl atRefl stRing (driverFuel schRefl stRing) 0 "Next_Id" 
 example : getAttr schRefl atRefl stRing (driverFuel schRefl stRing) 0 "Next_Id" = some 2 ∧
     getAttr schRefl atRefl stRing (driverFuel schRefl stRing) 1 "Next_Id" = some 1 ∧
     getAttr schRefl atRefl stSelf (driverFuel schRefl stSelf) 0 "Next_Id" = some 1 := by decide
+
+/-- `read_rank_reachable` APPLIED: `schRefl` is `SchemaOk` and has the attribute rank `arRefl`, so the read rank holds after
+    this history, which links two instances into a RING (0 → 1 → 0) — no instance rank exists there -/
+example : ReadRank schRefl (run schRefl [.new 0 true, .new 0 true, .relate 0 1 "R2" "succeeds", .relate 1 0 "R2" "succeeds"])
+    (fun x name => arRefl ((run schRefl [.new 0 true, .new 0 true, .relate 0 1 "R2" "succeeds", .relate 1 0 "R2" "succeeds"]).kindOf x) name) ∧
+    ((run schRefl [.new 0 true, .new 0 true, .relate 0 1 "R2" "succeeds", .relate 1 0 "R2" "succeeds"]).links 0).tgt 0 ≠ [] ∧
+    ((run schRefl [.new 0 true, .new 0 true, .relate 0 1 "R2" "succeeds", .relate 1 0 "R2" "succeeds"]).links 0).tgt 1 ≠ [] := by
+  have hok : SchemaOk schRefl := by
+    intro i a h
+    match i, h with
+    | 0, h => simp [schRefl] at h; subst h; decide
+    | i + 1, h => simp [schRefl] at h
+  have har : AttrRank schRefl arRefl := by
+    intro a ha p hp
+    simp only [schRefl, List.mem_cons, List.not_mem_nil, or_false] at ha
+    subst ha
+    simp only [keyPairs, List.zip_cons_cons, List.zip_nil_right, List.mem_cons, List.not_mem_nil, or_false] at hp
+    subst hp
+    decide
+  exact ⟨read_rank_reachable schRefl hok arRefl har _, by decide, by decide⟩
 
 end PyxProps.C02
 
